@@ -549,6 +549,40 @@ def companions(chk):
                 if w.shape[1] != n_w - 1 or not np.array_equal(w, np.asarray(al[k])[:, 1:n_w]):
                     out.append(f"ArviZ warmup group of {k}: {w.shape[1]} draws vs {n_w - 1} stored warmup draws, or values differ")
         return out
+    def summary_does_not_touch_results():
+        """a posterior epoch sampled in ONE jitted chunk; summaries with deselected / additional variables must leave the stored samples as they are"""
+        import jax.numpy as jnp
+        import liesel.goose as gs
+        b = gs.EngineBuilder(seed=4, num_chains=2)
+        b.set_model(gs.DictInterface(lambda s: -0.5 * s["x0"] ** 2 - 0.5 * s["x1"] ** 2))
+        b.set_initial_values({"x0": jnp.array(0.5), "x1": jnp.array(-0.5)})
+        b.add_kernel(gs.RWKernel(["x0"]))
+        b.add_kernel(gs.RWKernel(["x1"]))
+        b.set_epochs([gs.EpochConfig(gs.EpochType.INITIAL_VALUES, 1, 1, None), gs.EpochConfig(gs.EpochType.BURNIN, 8, 1, None), gs.EpochConfig(gs.EpochType.POSTERIOR, 8, 1, None)])
+        b.show_progress = False
+        e = b.build()
+        e.sample_all_epochs()
+        res = e.get_results()
+        before = {k: np.asarray(v).copy() for k, v in res.get_posterior_samples().items()}
+        out = []
+        gs.Summary(res, deselected=["x1"])
+        gs.Summary(res, additional_chain={"derived": np.asarray(before["x0"]) * 2.0})
+        after = res.get_posterior_samples()
+        if sorted(after) != sorted(before):
+            out.append(f"posterior samples hold {sorted(after)} after two summaries, stored were {sorted(before)}")
+        for k in before:
+            if k in after and not np.array_equal(np.asarray(after[k]), before[k]):
+                out.append(f"posterior samples of {k} changed")
+        try:
+            allk = sorted(res.get_samples())
+            if allk != sorted(before):
+                out.append(f"get_samples() holds {allk}")
+        except Exception as ex:
+            out.append(f"get_samples() raises {type(ex).__name__}: {ex}")
+        return out
+    pr2 = chk.guarded("summary-aliasing", "summaries with deselected / additional variables on a single-chunk posterior epoch", summary_does_not_touch_results)
+    if pr2:
+        chk.violation("summary-aliasing", "making a Summary changes the stored samples: " + "; ".join(pr2[:3]), dict(reproduced=True, observed=dict(problems=pr2), note="concrete companion (not solver-decided)"))
     pr = chk.guarded("roundtrip", "pickle and ArviZ round trips of a real two-chain engine run", engine_roundtrip)
     if pr:
         chk.violation("roundtrip", "pickling / ArviZ conversion does not preserve the stored samples: " + "; ".join(pr[:3]), dict(reproduced=True, observed=dict(problems=pr), note="concrete companion (not solver-decided)"))
@@ -656,7 +690,7 @@ def main():
         frame_obligations(chk, 2, {"ka": [1, 90], "kb": [1], "kc": [90]}, shared_msg=True)
         if chk.tier == "thorough":
             frame_obligations(chk, 3, {"a": [1], "b": [1, 2, 90]})
-    if not only or only in ("frame-aggregated", "roundtrip"):
+    if not only or only in ("frame-aggregated", "roundtrip", "summary-aliasing"):
         companions(chk)
     chk.extra["path_exploration"] = path_stats
     chk.functions += ["liesel.goose.engine.SamplingResults.get_error_log / get_posterior_samples / get_kernels_by_pos_key", "liesel.goose.summary_m._make_error_summary",
